@@ -14,7 +14,7 @@ func init() {
 		ID:  "C19",
 		Run: runC19,
 		Explanation: "Static analysis of genesis symmetry for the Haqq modules (coinomics, evm, erc20, liquidvesting, ucdao, feemarket, epochs): (R1) the GenesisState fields assigned on the export path equal the fields read on the import path; (R2) every persistent store prefix of the module that consensus code writes is read by code reachable from ExportGenesis and written by code reachable from InitGenesis, except tabled derived indexes; " +
-			"(R3) the app exports through the module manager. Query-level equality of re-imported state is run-time behaviour and is not decided.",
+			"(R3) the app exports through the module manager; (R4) nothing on an export path stops an iteration early or paginates; (R5) import loops restore every part of every element unconditionally. Query-level equality of re-imported state is run-time behaviour and is not decided.",
 		Assumptions: []string{"module.Manager.InitGenesis/ExportGenesisForModules call each module's functions", "JSON codec round-trips GenesisState"},
 		Declined:    []string{"query-level equality of the re-imported state", "fidelity of nested values (e.g. epochs resets CurrentEpochStartHeight on import)"},
 	})
@@ -218,6 +218,38 @@ func runC19(r *Run) {
 				}
 			}
 		}
+		// store-getter helpers of the keeper package (getAccountStore, getHoldersStore, …): a function that mentions
+		// the prefix and returns a store; its callers count as users of the prefix
+		for _, fn := range P.Funcs {
+			if !strings.HasPrefix(fnPkgPath(fn), haqqMod+"/x/"+gm.Name) || fn.Parent() != nil || isTestSupport(P, fn) {
+				continue
+			}
+			res := fn.Signature.Results()
+			if res.Len() != 1 {
+				continue
+			}
+			rn := namedName(res.At(0).Type())
+			if rn != "Store" && rn != "KVStore" {
+				continue
+			}
+			for _, g := range prefixes {
+				uses := usesGlobal(fn, g)
+				if !uses {
+					for _, f := range withAnon(fn) {
+						eachCall(f, func(ci CallInfo) {
+							for _, h := range keyHelpers[g] {
+								if ci.Static == h {
+									uses = true
+								}
+							}
+						})
+					}
+				}
+				if uses {
+					keyHelpers[g] = append(keyHelpers[g], fn)
+				}
+			}
+		}
 		usesPrefix := func(fn *ssa.Function, g *ssa.Global) bool {
 			if usesGlobal(fn, g) {
 				return true
@@ -235,6 +267,16 @@ func runC19(r *Run) {
 			return u
 		}
 		nP := 0
+		// run-time reachability: consensus scope with this module's InitGenesis cut out (setters are shared by
+		// InitGenesis and message handlers; what only InitGenesis reaches is not a run-time writer)
+		rtRoots := map[*ssa.Function]string{}
+		for f, why := range sc.Roots {
+			if f != initF {
+				rtRoots[f] = why
+			}
+		}
+		runtime := sc.G.Reach(rtRoots, func(f *ssa.Function) bool { return f == initF })
+		delete(runtime.Nodes, initF)
 		for _, g := range prefixes {
 			key := typesPkg + "." + g.Name()
 			runtimeWriter := ""
@@ -242,7 +284,7 @@ func runC19(r *Run) {
 				if isTestSupport(P, fn) || fn.Parent() != nil || strings.Contains(fnPkgPath(fn), "/migrations/") {
 					continue // store migrations rewrite old layouts; the prefixes they mention are legacy keys
 				}
-				if initReach[fn] && !isRuntimeReach(sc, fn, initF) {
+				if !runtime.Has(fn) {
 					continue
 				}
 				if usesPrefix(fn, g) && writesStore(fn) {
@@ -281,6 +323,170 @@ func runC19(r *Run) {
 		}
 		r.Count("R2 runtime-written prefixes of "+gm.Name, nP)
 	}
+
+	// ---------- R4: the export walks everything ----------
+	r.Rule("R4", "PATH/REACH.export-exhaustive: on the export path (functions reachable from a module's ExportGenesis) every callback handed to an Iterate*/Walk* method returns the constant false (never stops early), and nothing paginates (no query.Paginate / FilteredPaginate / *Paginated* helper, whose nil page request means 'first 100')")
+	nCbE := 0
+	for _, gm := range genModules {
+		expF, ok := P.FnOK(gm.Export)
+		if !ok {
+			continue
+		}
+		for fn := range moduleReach(P, expF, 4) {
+			eachCall(fn, func(ci CallInfo) {
+				if ci.Name == "Paginate" || ci.Name == "FilteredPaginate" || ci.Name == "GenericFilteredPaginate" || strings.Contains(ci.Name, "Paginated") {
+					r.Bad("R4", fmt.Sprintf("x/%s#paginates/%s", gm.Name, fnID(outermost(fn))), P.Pos(instrPos(ci.Instr)), "the export path of "+gm.Name+" goes through a paginated read ("+ci.Name+"): with no page request only the first page (100 entries) is exported")
+					return
+				}
+				if !(strings.HasPrefix(ci.Name, "Iterate") || strings.HasPrefix(ci.Name, "Walk")) {
+					return
+				}
+				for _, a := range ci.Instr.Common().Args {
+					var cb *ssa.Function
+					switch x := a.(type) {
+					case *ssa.MakeClosure:
+						cb, _ = x.Fn.(*ssa.Function)
+					case *ssa.Function:
+						cb = x
+					}
+					if cb == nil || cb.Signature.Results().Len() != 1 {
+						continue
+					}
+					if b, ok := cb.Signature.Results().At(0).Type().Underlying().(*types.Basic); !ok || b.Kind() != types.Bool {
+						continue
+					}
+					nCbE++
+					bad := ""
+					eachInstr(cb, func(in ssa.Instruction) {
+						if ret, ok := in.(*ssa.Return); ok && !(cb.Recover != nil && ret.Block() == cb.Recover) {
+							v := retOperands(ret)[0]
+							if k, isK := v.(*ssa.Const); !isK || k.Value == nil || k.Value.String() != "false" {
+								bad = P.Pos(instrPos(in))
+							}
+						}
+					})
+					r.Check(bad == "", "R4", fmt.Sprintf("x/%s#%s#never-stops", gm.Name, fnID(cb)), P.Pos(fnPos(cb)), "export callback always returns false", "an iteration on the export path of "+gm.Name+" can stop early (callback returns something other than false at "+bad+"): later entries are missing from the exported genesis")
+				}
+			})
+		}
+	}
+	r.Floor("R4", "iterator callbacks on export paths", nCbE, 1)
+
+	// ---------- R5: the import writes every element completely ----------
+	r.Rule("R5", "PATH.import-per-element: in a loop of a module's InitGenesis over a GenesisState field, each store-writing call of the loop body (a Set*/set*/Init* keeper method) is performed on every iteration — from the start of the body the next iteration is reachable only through it (panics/failure exits excepted); an element's record, its indexes, its code and its storage are restored unconditionally")
+	nImpLoops := 0
+	for _, gm := range genModules {
+		initF, ok := P.FnOK(gm.Init)
+		if !ok {
+			continue
+		}
+		typesPkg := "x/" + gm.Name + "/types"
+		for fn := range moduleReach(P, initF, 2) {
+			if fn != initF && !strings.HasPrefix(fn.Name(), "init") {
+				continue
+			}
+			for _, hd := range fn.Blocks {
+				if !isLoopHeader(hd) {
+					continue
+				}
+				body := loopBody(hd)
+				// only loops ranging over genesis data
+				overGenesis := false
+				if ifi, ok := lastIf(hd); ok {
+					if _, _, ok := directGenesisField(ifi.Cond, typesPkg); ok {
+						overGenesis = true
+					}
+					if fn != initF {
+						overGenesis = overGenesis || backSlice(ifi.Cond).Any(func(v ssa.Value) bool { _, isP := v.(*ssa.Parameter); return isP })
+					}
+				}
+				if !overGenesis {
+					continue
+				}
+				var writers []ssa.CallInstruction
+				for b := range body {
+					if innermostLoop(b) != hd {
+						continue // nested loops (per-slot storage) are judged as their own loop
+					}
+					for _, in := range b.Instrs {
+						c, ok := in.(ssa.CallInstruction)
+						if !ok {
+							continue
+						}
+						ci := callInfo(c)
+						if (ci.Static != nil || ci.Invoke) && (strings.HasPrefix(ci.Name, "Set") || strings.HasPrefix(ci.Name, "set") || strings.HasPrefix(ci.Name, "Init") || strings.HasPrefix(ci.Name, "init") || strings.HasPrefix(ci.Name, "add")) && ci.PkgPath != "" && (isHaqqPath(ci.PkgPath) || ci.Invoke) {
+							writers = append(writers, c)
+						}
+					}
+				}
+				// directly nested loops that write (per-slot storage, per-coin balances) must be entered on every iteration too
+				var innerHeads []*ssa.BasicBlock
+				for b := range body {
+					if b != hd && isLoopHeader(b) && innermostLoopExcluding(b) == hd {
+						has := false
+						for ib := range loopBody(b) {
+							for _, in := range ib.Instrs {
+								if c, ok := in.(ssa.CallInstruction); ok {
+									n := callInfo(c).Name
+									if strings.HasPrefix(n, "Set") || strings.HasPrefix(n, "set") || strings.HasPrefix(n, "add") {
+										has = true
+									}
+								}
+							}
+						}
+						if has {
+							innerHeads = append(innerHeads, b)
+						}
+					}
+				}
+				if len(writers) == 0 && len(innerHeads) == 0 {
+					continue
+				}
+				nImpLoops++
+				for i, ih := range innerHeads {
+					var starts0 []*ssa.BasicBlock
+					for _, sc2 := range hd.Succs {
+						if body[sc2] && sc2 != hd {
+							starts0 = append(starts0, sc2)
+						}
+					}
+					okI := true
+					var wit []string
+					for _, sb := range starts0 {
+						w := PathQuery{Fn: fn, StartBlock: sb, Block: func(in ssa.Instruction) bool { return in == ih.Instrs[0] }, Target: func(in ssa.Instruction) bool { return in == hd.Instrs[0] }}.Search()
+						if w != nil {
+							okI = false
+							wit = P.witness(w)
+						}
+					}
+					r.Check(okI, "R5", fmt.Sprintf("x/%s#%s/loop@%s/inner-loop-%d", gm.Name, fnID(fn), hd.Comment, i+1), P.Pos(instrPos(ih.Instrs[0])), "the nested writing loop is entered on every iteration",
+						"while importing "+gm.Name+" genesis an element's nested data (e.g. an account's storage slots) can be skipped as a whole: it was exported but is not restored", wit...)
+				}
+				var starts []*ssa.BasicBlock
+				for _, sc2 := range hd.Succs {
+					if body[sc2] && sc2 != hd {
+						starts = append(starts, sc2)
+					}
+				}
+				for i, wc := range writers {
+					ci := callInfo(wc)
+					isW := func(in ssa.Instruction) bool { return in == ssa.Instruction(wc) }
+					okW := true
+					var wit []string
+					for _, sb := range starts {
+						w := PathQuery{Fn: fn, StartBlock: sb, Block: isW, Target: func(in ssa.Instruction) bool { return in == hd.Instrs[0] }}.Search()
+						if w != nil {
+							okW = false
+							wit = P.witness(w)
+						}
+					}
+					r.Check(okW, "R5", fmt.Sprintf("x/%s#%s/loop@%s/%s-%d", gm.Name, fnID(fn), hd.Comment, ci.Name, i+1), P.Pos(instrPos(wc)), ci.Name+" on every iteration",
+						"while importing "+gm.Name+" genesis an element can be passed over without "+ci.Name+"(…): part of that element's state (an index entry, its code, its storage, its enabled flag …) is not restored although the export contained it", wit...)
+				}
+			}
+		}
+	}
+	r.Floor("R5", "import loops with store writers", nImpLoops, 4)
 
 	// evm export completeness: every exported account carries its code and storage
 	if ex, ok := P.FnOK("x/evm.ExportGenesis"); ok {
@@ -384,4 +590,20 @@ func storeReachesAllReturnsAfterAssert(f *ssa.Function, st *ssa.Store) bool {
 	}
 	w := PathQuery{Fn: f, Block: func(in ssa.Instruction) bool { return in == ssa.Instruction(st) }, Target: isAppend}.Search()
 	return w == nil
+}
+
+// innermostLoopExcluding: the innermost loop that contains header h other than h's own loop.
+func innermostLoopExcluding(h *ssa.BasicBlock) *ssa.BasicBlock {
+	var best *ssa.BasicBlock
+	bestSize := 0
+	for _, o := range h.Parent().Blocks {
+		if o == h || !isLoopHeader(o) {
+			continue
+		}
+		body := loopBody(o)
+		if body[h] && (best == nil || len(body) < bestSize) {
+			best, bestSize = o, len(body)
+		}
+	}
+	return best
 }
